@@ -219,6 +219,24 @@ def load(features=None):
     return Facts(extract(features))
 
 
+class use_repo:
+    """context manager: point fact extraction (and everything that reads vlib.facts.REPO/WS) at another checkout"""
+
+    def __init__(self, repo):
+        self.repo = repo
+
+    def __enter__(self):
+        global REPO, WS
+        self.old = (REPO, WS)
+        REPO = self.repo
+        WS = os.path.join(self.repo, "compiler")
+        return self
+
+    def __exit__(self, *a):
+        global REPO, WS
+        REPO, WS = self.old
+
+
 if __name__ == "__main__":
     t = time.time()
     d = extract(force="--force" in sys.argv)
